@@ -640,7 +640,7 @@ pub struct DynRwCase {
     pub noise: Vec<(u16, u16)>,
 }
 
-const TYPE_FREE_KINDS: [u8; 8] = [0, 1, 3, 4, 5, 7, 8, 9];
+const TYPE_FREE_KINDS: [u8; 9] = [0, 1, 3, 4, 5, 6, 7, 8, 9];
 
 /// the same with an arbitrary document as the original (coverage-guided campaigns provide it)
 #[derive(Clone, Debug, Serialize, Deserialize, PartialEq)]
@@ -772,8 +772,12 @@ fn check_dyn_on(original: String, choices: &[u8], rewrites: &[Rw]) -> Verdict {
     let mut doc = original.clone();
     let mut applied: Vec<&'static str> = vec![];
     const KIND: [&str; 12] = ["comment-between-tokens", "comment-inside-text", "whitespace-between-children", "text-to-cdata", "char-to-reference", "empty-vs-start-end", "attribute-order", "attribute-quotes", "attribute-spacing", "prolog-and-trailer", "unknown-attribute", "unknown-child"];
+    // attribute order: the attributes are compared as a set (sorted in both traces); a visitor that
+    // stops reading early legitimately sees other attributes after a reordering
+    let early = script.has_early_stop();
+    let base = base.with_sorted_attributes();
     for rw in rewrites {
-        if !TYPE_FREE_KINDS.contains(&rw.kind) {
+        if !TYPE_FREE_KINDS.contains(&rw.kind) || (rw.kind == 6 && early) {
             continue;
         }
         if let Some(d) = apply(ty, &doc, rw) {
@@ -787,7 +791,7 @@ fn check_dyn_on(original: String, choices: &[u8], rewrites: &[Rw]) -> Verdict {
         return Verdict::pass(false).class("no-applicable-rewrite");
     }
     let mut v = Verdict::pass(true).class("scripted-target");
-    match run(&doc) {
+    match run(&doc).map(|r| r.map(|t| t.with_sorted_attributes())) {
         Ok(Ok(got)) if got == base => v,
         Ok(Ok(got)) => Verdict::fail(format!("scripted target: rewrites {:?} changed what the visitors are shown: original {:?} -> {:?}; rewritten {:?} -> {:?} | script {:?}", applied, original, base, doc, got, script)),
         Ok(Err(e)) => Verdict::fail(format!("scripted target: rewrites {:?} made deserialization fail ({}): original {:?}; rewritten {:?} | script {:?}", applied, e, original, doc, script)),
@@ -847,6 +851,14 @@ fn run(ctx: &Ctx) {
         Box::new((any_val(), 0u8..3, any::<bool>(), prop::collection::vec(any::<u8>(), 0..48), prop::collection::vec((prop::sample::select(TYPE_FREE_KINDS.to_vec()), any::<u16>(), any::<u16>()).prop_map(|(kind, site, arg)| Rw { kind, site, arg }), 1..5), prop::collection::vec((any::<u16>(), any::<u16>()), 0..4)).prop_map(|(value, level, expand_empty, choices, rewrites, noise)| DynRwCase { value, level, expand_empty, choices, rewrites, noise }))
     };
     ctx.run_proptest_with("scripted-targets-x-type-independent-rewrites", ctx.tier.pick(800_000, 6_000_000), dynrw, check_dyn);
+    // the same on documents with xsi:nil attributes, namespace (re)declarations and unknown subtrees
+    let dynnil = || {
+        Box::new(
+            (prop::collection::vec((0u8..2, any::<u16>(), any::<u16>(), any::<u16>()), 1..6), any::<u16>(), prop::collection::vec(any::<u8>(), 0..40), prop::collection::vec((prop::sample::select(TYPE_FREE_KINDS.to_vec()), any::<u16>(), any::<u16>()).prop_map(|(kind, site, arg)| Rw { kind, site, arg }), 1..5))
+                .prop_map(|(items, rootsel, choices, rewrites)| DynDocCase { doc: super::c14::nil_template(&items, rootsel), choices, rewrites }),
+        )
+    };
+    ctx.run_proptest_with("scripted-targets-x-nil-documents", ctx.tier.pick(300_000, 3_000_000), dynnil, check_dyn_doc);
     // the same rewrite kind applied MANY times (130 / 270 comments, blanks between children, unknown
     // children, unknown attributes ...): whatever the deserializer counts per skipped element,
     // per comment or per attribute passes 128 and 256
